@@ -42,14 +42,46 @@ func TestVerif_C22(t *testing.T) {
 	nCorp := rec.N(30, 400) // building a world costs ~0.7 s (shard builders), a query ~100 ms
 	nQ := rec.N(9, 16)
 	for ci := 0; ci < nCorp; ci++ {
+		multiline := ci%3 == 1
 		w, err := newWorld(rec, 22_000_000+uint64(ci), worldOpt{singles: ci%5 == 4, configure: func(g *kit.Gen) {
 			g.Tombstones = false
+		}, mutate: func(g *kit.Gen, c *kit.Corpus) {
+			if !multiline {
+				return
+			}
+			// documents whose matches span one, two or three lines, so that one chunk
+			// holds ranges of different heights next to the display cut
+			words := []string{"alpha", "beta", "alpha", "gamma x", "alpha beta", "beta", ""}
+			for _, r := range c.Repos {
+				for k := 0; k < 2; k++ {
+					var b strings.Builder
+					n := 6 + g.R.IntN(20)
+					for i := 0; i < n; i++ {
+						b.WriteString(words[g.R.IntN(len(words))])
+						if i < n-1 || g.R.IntN(2) == 0 {
+							b.WriteByte('\n')
+						}
+					}
+					d := &kit.Doc{Name: fmt.Sprintf("ml/%s-%d.txt", strings.ReplaceAll(r.Name, "/", "_"), k), Content: b.String(), Language: "Text", Branches: []string{r.Branches[0].Name}}
+					r.Docs = append(r.Docs, d)
+				}
+			}
 		}})
 		if err != nil {
 			rec.Violation("harness/build", err.Error(), nil)
 			continue
 		}
 		qg := kit.NewQGen(w.g, w.c, w.ev)
+		if multiline {
+			for _, src := range []string{`alpha(\nbeta)?`, `beta\n(alpha\n)?`, `alpha(\nbeta(\nalpha)?)?`, `a[a-z]+\n?`, `(alpha|beta)\n(alpha|beta)`} {
+				if re := qg.RegexpFromSrc(src, true); re != nil {
+					re.Content = true
+					o := zoekt.SearchOptions{Whole: true, ChunkMatches: true, NumContextLines: w.g.R.IntN(3)}
+					rec.Count("multiline_range_queries", 1)
+					c22Query(rec, w, re, o)
+				}
+			}
+		}
 		for qi := 0; qi < nQ; qi++ {
 			qg.MaxDepth = qi % 3
 			qg.OnlyText = qi%3 != 2
@@ -627,8 +659,54 @@ func c22FilePrefix(l, u *zoekt.FileMatch, chunks bool) (cut bool, what string) {
 	return cut || len(l.ChunkMatches) < len(u.ChunkMatches), ""
 }
 
+// c22KnownCut is the content that limitChunkMatches of the unchanged tree leaves of
+// the uncut chunk orig when limit ranges remain: it drops, counted from the END of the
+// content, as many newline-separated lines as the End line numbers of the old and the
+// new last range differ (the rule behind the three recorded C22 chunk findings).
+func c22KnownCut(orig *zoekt.ChunkMatch, limit int) ([]byte, bool) {
+	if limit <= 0 || limit > len(orig.Ranges) {
+		return nil, false
+	}
+	n := int(orig.Ranges[len(orig.Ranges)-1].End.LineNumber) - int(orig.Ranges[limit-1].End.LineNumber)
+	c := orig.Content
+	if n <= 0 {
+		return c, true
+	}
+	for b := len(c) - 1; b >= 0; b-- {
+		if c[b] == '\n' {
+			n--
+		}
+		if n == 0 {
+			return c[:b], true
+		}
+	}
+	return nil, false
+}
+
+// c22Attribute keeps a chunk-cut signature that is a recorded finding only when the
+// cut content is exactly what the recorded rule produces; any other wrong cut gets a
+// signature of its own, so that the recorded findings cannot hide a different defect
+// of the truncation.
+func c22Attribute(sig string, cm, orig *zoekt.ChunkMatch) string {
+	if want, ok := c22KnownCut(orig, len(cm.Ranges)); ok && string(want) == string(cm.Content) {
+		return sig
+	}
+	return "cut chunk is neither the specified lines nor what the line-difference rule of limitChunkMatches leaves (" + sig + ")"
+}
+
 // c22ChunkProblem judges a chunk that lost ranges against the file content.
 func c22ChunkProblem(text string, cm, orig *zoekt.ChunkMatch, ctx int) (sig, what string) {
+	sig, what = c22ChunkProblemRaw(text, cm, orig, ctx)
+	switch sig {
+	case "cut chunk does not contain its remaining ranges",
+		"cut chunk keeps one line too many (uncut chunk ends with a newline)",
+		"cut chunk lacks context lines that exist after its last remaining range":
+		sig = c22Attribute(sig, cm, orig)
+	}
+	return sig, what
+}
+
+func c22ChunkProblemRaw(text string, cm, orig *zoekt.ChunkMatch, ctx int) (sig, what string) {
 	if cm.FileName {
 		return "", ""
 	}
